@@ -467,6 +467,7 @@ def side_post(n, read, match):
 
 @contract("modifiers.py", "PairedAdapterCutter.__call__", props=["C03", "C05", "C20"])
 def paired_adapter_cutter_call(c):
+    c.runtime = {"module": "cmods", "name": "pair_adapters", "replay_count": 4000}
     c.types(self=PairedCutterT, read1=Record, read2=Record, info1=InfoT, info2=InfoT)
     c.returns(TupT(Record, Record))
     c.modifies = ["self", "info1", "info2", "read1", "read2"]
